@@ -206,11 +206,11 @@ func main() {
 			"no duplicate / missing row across pages, total correct, single entity == stored row",
 		Histogram: hist, Samples: samples, Shards: sw.Shards, MonitorViolations: violations,
 		Extra: map[string]interface{}{
-			"scenarios":                     len(jobs),
-			"offset_past_end_requests":      pastEnd,
-			"offset_past_end_panics":        pastPanics,
+			"scenarios":                      len(jobs),
+			"offset_past_end_requests":       pastEnd,
+			"offset_past_end_panics":         pastPanics,
 			"order_differs_from_index_order": orderDiffs,
-			"errors_on_empty_result":        unexpected,
+			"errors_on_empty_result":         unexpected,
 		},
 	}
 	if err := common.WriteJSON(filepath.Join(*out, "summary.json"), sum); err != nil {
